@@ -4,6 +4,19 @@ claimed / not_applicable partition is always consistent)."""
 import json
 
 CLAIMS = {
+ 'C15': dict(
+   text='PARTIAL (codec / framing agreement): reader and writer of csv, text and json wrap the binary stream with the same '
+        'encoding / errors data flow and newline=\'\' (read side and csv write side); from/to/append/tee csv default to '
+        'excel / excel-tab and hand **csvargs untouched to csv.reader / csv.writer; to* opens wb, append* ab, from* rb; the '
+        'text wrapper is flushed or detached after the last write, detach in a finally; pickle writes one independent '
+        'module-level pickle.dump per record (header guarded by write_header) and the reader loops pickle.load until '
+        'EOFError; json lines writes one newline per record. These are necessary for losslessness with embedded CR/LF/'
+        'quotes, on compressed streams and for objects shared between rows.',
+   ref='DESIGN.md §4 C15',
+   note='does NOT compare any value read back with the value written (that is the csv / json / pickle modules\' own '
+        'behaviour, outside static reach); source resolution by extension and remote sources are not analysed',
+   technique='reader/writer sibling comparison of TextIOWrapper arguments and open modes, sink-effect skeletons for '
+             'flush/detach order and pickle framing'),
  'C12': dict(
    text='PARTIAL (frame structure): in each of the 27 one-to-one iterators every path through the data loop yields exactly '
         'one row in loop order; in the operators documented to pad, every header-indexed access to a source row is inside '
